@@ -385,11 +385,16 @@ class ProductState:
             if isinstance(
                 CompositeEnvelope._instances[self.container.composite_uid], list
             ):
-                other_outcomes = CompositeEnvelope._instances[
-                    self.container.composite_uid
-                ][0].measure(*states)
-                for s in states:
-                    del other_outcomes[s]
+                # Custom states are never destroyed, they keep the post POVM state
+                from photon_weave.state.custom_state import CustomState
+
+                to_destroy = [s for s in states if not isinstance(s, CustomState)]
+                if len(to_destroy) > 0:
+                    other_outcomes = CompositeEnvelope._instances[
+                        self.container.composite_uid
+                    ][0].measure(*to_destroy)
+                    for s in to_destroy:
+                        del other_outcomes[s]
         if C.contractions:
             self.contract()
         return (outcome, other_outcomes)
